@@ -35,7 +35,7 @@ For each change k = 1..{n} create the directory {wt}/_mut/k/ containing:
                 property as stated (not merely a behavioural difference), and must not depend on the working directory contents
                 other than importing hdl21 from the current directory
   notes.md    - 5-10 lines: what was changed, why the tests do not notice, what exactly is needed for the violation to manifest
-Develop one change at a time: apply it, run the test suite, run the demo (must fail), then `git stash`/`git checkout -- .` it,
+Develop one change at a time: apply it, run the test suite, run the demo (must fail), then undo it with `git apply -R _mut/k/patch.diff` (never `git stash`: the stash is shared between worktrees),
 run the demo again on clean HEAD (must pass), and make sure the worktree's tracked files are back to HEAD before starting the
 next change (the _mut directory is untracked and stays). Finish with the worktree's tracked files identical to HEAD.
 In your final message list, per change: the file(s) touched, a one-line description, and the confirmed results
